@@ -711,7 +711,7 @@ func (rn *run) buildRequest() (*http.Request, *scriptBody, []byte) {
 			body = body[:req.ContentLength]
 		}
 	}
-	sb := &scriptBody{data: append([]byte(nil), body...), chunks: cl.Chunks, cutErr: cutErr}
+	sb := &scriptBody{data: append([]byte(nil), body...), chunks: cl.Chunks, cutErr: cutErr, eofWithData: cl.EOFData}
 	if rn.scn.Hd.CloseRace && len(body) > 8 {
 		// pause inside the first message: its envelope and three bytes of payload have been delivered
 		sb.pauseAt, sb.paused, sb.release = 8, make(chan struct{}), make(chan struct{})
@@ -2028,9 +2028,9 @@ func runScenario(scn *scenario, seed int64) observation {
 		obs.Scn = scn
 		obs.MaxGet = limited.Cfg.MaxGet
 	}
-	if len(scn.Cl.Chunks) > 0 || len(scn.Hd.Reads) > 0 || len(scn.Hd.Writes) > 0 || scn.Hd.Flush {
+	if len(scn.Cl.Chunks) > 0 || len(scn.Hd.Reads) > 0 || len(scn.Hd.Writes) > 0 || scn.Hd.Flush || scn.Cl.EOFData {
 		plain := *scn
-		plain.Cl.Chunks, plain.Hd.Reads, plain.Hd.Writes, plain.Hd.Flush = nil, nil, nil, false
+		plain.Cl.Chunks, plain.Hd.Reads, plain.Hd.Writes, plain.Hd.Flush, plain.Cl.EOFData = nil, nil, nil, false, false
 		ref := runOnce(&plain, seed)
 		obs.Ref = refObs{Has: true, Kind: "chunk", Disp: ref.Disp, Cl: ref.Cl, Ret: ref.Ret}
 	}
